@@ -61,19 +61,19 @@ def run(ctx):
     ctx.findings = [f for f in json.load(open(kf))["findings"] if f.get("status") == "open"]
 
     # 1. the design, its three named deviations, and the tolerant model of today's code
-    ctx.tlc_mc(fam, "EtcdWatch", "EtcdWatch_MC.cfg", workers=4, coverage=ctx.thorough)
+    ctx.tlc_mc(fam, "EtcdWatch", "EtcdWatch_MC.cfg", workers=8, coverage=ctx.thorough)
     ctx.tlc_mc(fam, "EtcdWatch", "EtcdWatch_MC_bug_rev.cfg", workers=1, expect_violation="NoLoss")
     ctx.tlc_mc(fam, "EtcdWatch", "EtcdWatch_MC_bug_dup.cfg", workers=1, expect_violation="NoDup")
-    ctx.tlc_mc(fam, "EtcdWatch", "EtcdWatch_MC_bug_snap.cfg", workers=2, expect_violation="NoStale")
+    ctx.tlc_mc(fam, "EtcdWatch", "EtcdWatch_MC_bug_snap.cfg", workers=1, expect_violation="NoStale")
     ctx.tlc_mc(fam, "EtcdWatch", "EtcdWatch_MC_today.cfg", workers=4)
     if ctx.thorough:
         ctx.tlc_mc(fam, "EtcdWatch", "EtcdWatch_MC_big.cfg", workers=16, timeout=3000, heap="16g")
     # 2. plans
-    pdir, plans = ctx.tlc_plans(fam, "EtcdWatch_Gen", "EtcdWatch_Gen.cfg", num=ctx.q(250, 2500), depth=26)
+    pdir, plans = ctx.tlc_plans(fam, "EtcdWatch_Gen", "EtcdWatch_Gen.cfg", num=ctx.q(180, 1200), depth=26)
     # 3. execute
     binary = ctx.go_build("x04")
     outp = ctx.path("x04.ndjson")
-    ctx.harness(binary, ["-plans", pdir, "-out", outp, "-seed", ctx.seed, "-hist", ctx.q(240, 3000)],
+    ctx.harness(binary, ["-plans", pdir, "-out", outp, "-seed", ctx.seed, "-hist", ctx.q(176, 1500)],
                 traces=[outp], timeout=1500)
     traces = ctx.load_traces(outp)
     # 4. validate
@@ -91,12 +91,28 @@ def run(ctx):
             per.setdefault(c, []).append(t)
     rj = ctx.validate(fam, "EtcdWatch_Trace", "EtcdWatch_Trace.cfg", clean, label="strict", chunk=20000)
     rj += ctx.validate(fam, "EtcdWatch_Trace", "EtcdWatch_Trace.cfg", classed, label="tolerant", chunk=20000)
-    # strict sample of every class: single-class traces first, the shortest first
-    nsample = ctx.q(12, 60)
+    # strict sample of every class: single-class traces first, spread over all lengths
+    nsample = ctx.q(16, 80)
     for c in sorted(per):
-        ts = sorted(per[c], key=lambda t: (len(classes(t)), len(t)))[:nsample]
+        ts = sorted(per[c], key=lambda t: (len(classes(t)), -len(t)))
+        ts = [t for t in ts if len(classes(t)) == 1][:nsample] or ts[:nsample]
         rj += ctx.validate(fam, "EtcdWatch_Trace", "EtcdWatch_Trace.cfg", ts, label="strict-" + c,
                            chunk=20000, max_rejections=2)
+    # the rejected trace of each known finding is kept as a replay (written once, never overwritten):
+    # ./check X04 --replay extras/replays/X04-<class>.json re-validates it with the strict spec
+    rdir = os.path.join(here, "..", "extras", "replays")
+    os.makedirs(rdir, exist_ok=True)
+    for r in rj:
+        m = re.match(r"strict-([RDGL])$", r.get("label", ""))
+        rp = os.path.join(rdir, "X04-%s.json" % m.group(1)) if m else None
+        if rp and not os.path.exists(rp):
+            with open(rp, "w") as fh:
+                json.dump({"property": ctx.pid, "seed": ctx.seed, "tier": ctx.tier, "rejected_line": r["line"],
+                           "rejected_event": r["event"], "label": r["label"], "validate_with": r["how"],
+                           "explanation": "known finding X04-%s: the strict specification cannot explain "
+                                          "event #%d of this trace recorded from the unchanged code"
+                                          % (m.group(1), r["line"]),
+                           "trace": r["trace"]}, fh, indent=1)
     ctx.judge(rj)
     ctx.extra["plans"] = len(plans)
     ctx.extra["traces"] = {"strict": len(clean), "tolerant": len(classed),
